@@ -28,6 +28,7 @@ import pyglove as pg
 
 P = pg.coding.CodePermission
 _ADDR = re.compile(r' at 0x[0-9a-fA-F]+')
+_END = object()
 
 # ---------------------------------------------------------------------------------------------
 # Harness objects visible to the generated programs
@@ -134,10 +135,21 @@ def _norm(v, depth=0):
   if isinstance(v, (float, bytes)):
     return v
   if isinstance(v, (list, tuple)):
-    if len(v) > 8 and all(isinstance(x, str) and len(x) == 1 for x in v):
-      # a string exploded into characters (e.g. `*f"{function}"`): object addresses must not matter
-      return [type(v).__name__, 'chars', _ADDR.sub(' at 0x?', ''.join(v))]
-    return [type(v).__name__] + [_norm(x, depth + 1) for x in v]
+    # runs of single characters (a string exploded by `*f"{function}"` ...) are joined again, so that
+    # object addresses inside them can be masked like in any other string
+    out, run = [type(v).__name__], []
+    for x in list(v) + [_END]:
+      if isinstance(x, str) and len(x) == 1:
+        run.append(x)
+        continue
+      if len(run) >= 8:
+        out.append(['chars', _ADDR.sub(' at 0x?', ''.join(run))])
+      else:
+        out.extend(run)
+      run = []
+      if x is not _END:
+        out.append(_norm(x, depth + 1))
+    return out
   if isinstance(v, (set, frozenset)):
     return ['set'] + sorted((_norm(x, depth + 1) for x in v), key=repr)
   if isinstance(v, dict):
